@@ -33,7 +33,8 @@ enum CxOp
 {
   CX_PUSH_BACK = 0, CX_EMPLACE_BACK, CX_INSERT, CX_INSERT_N, CX_INSERT_RANGE, CX_ERASE, CX_ERASE_RANGE, CX_POP_BACK, CX_CLEAR,
   CX_RESIZE, CX_RESIZE_VAL, CX_RESERVE, CX_SHRINK, CX_ASSIGN_N, CX_ASSIGN_RANGE, CX_APPEND_RANGE, CX_COPY_ASSIGN, CX_MOVE_ASSIGN,
-  CX_SWAP, CX_COPY_CTOR, CX_MOVE_CTOR, CX_COMPARE, CX_NM_ERASE, CX_NM_ERASE_IF, CX_EMPLACE, CX_INSERT_ALIAS, CX_APPEND_SV, CX_CTOR_N, CX__COUNT
+  CX_SWAP, CX_COPY_CTOR, CX_MOVE_CTOR, CX_COMPARE, CX_NM_ERASE, CX_NM_ERASE_IF, CX_EMPLACE, CX_INSERT_ALIAS, CX_APPEND_SV, CX_CTOR_N,
+  CX_INSERT_N_ALIAS, CX_PUSH_ALIAS, CX_RESIZE_ALIAS, CX_EMPLACE_ALIAS, CX_EMPLACE_BACK_ALIAS, CX__COUNT
 };
 
 template <typename V>
@@ -73,6 +74,11 @@ constexpr long apply (A& a, B& b, const Step& s, bool& a_moved, bool& b_moved, b
     case CX_INSERT_N: { auto it = a.insert (a.begin () + pos, static_cast<S> (cnt), T (s.val)); ret = it - a.begin (); growth = true; break; }
     case CX_INSERT_RANGE: { auto it = a.insert (a.begin () + pos, src.begin (), src.begin () + cnt); ret = it - a.begin (); growth = true; break; }
     case CX_INSERT_ALIAS: if (n) { auto it = a.insert (a.begin () + pos, a[static_cast<S> (s.val % n)]); ret = it - a.begin (); growth = true; } break;
+    case CX_INSERT_N_ALIAS: if (n) { auto it = a.insert (a.begin () + pos, static_cast<S> (cnt), a[static_cast<S> (s.val % n)]); ret = it - a.begin (); growth = true; } break;
+    case CX_EMPLACE_ALIAS: if (n) { auto it = a.emplace (a.begin () + pos, a[static_cast<S> (s.val % n)]); ret = it - a.begin (); growth = true; } break;
+    case CX_PUSH_ALIAS: if (n) { a.push_back (a[static_cast<S> (s.val % n)]); growth = true; } break;
+    case CX_EMPLACE_BACK_ALIAS: if (n) { T& r = a.emplace_back (a[static_cast<S> (s.val % n)]); ret = val (r); growth = true; } break;
+    case CX_RESIZE_ALIAS: if (n) { a.resize (static_cast<S> (s.cnt * 2), a[static_cast<S> (s.val % n)]); growth = true; } break;
     case CX_ERASE: if (n) { auto it = a.erase (a.begin () + (pos < n ? pos : n - 1)); ret = it - a.begin (); } break;
     case CX_ERASE_RANGE: { int e = pos + (n - pos ? s.cnt % (n - pos + 1) : 0); auto it = a.erase (a.begin () + pos, a.begin () + e); ret = it - a.begin (); break; }
     case CX_POP_BACK: if (n) a.pop_back (); break;
